@@ -327,7 +327,7 @@ impl SubCheck for StopMem {
 		"stop-in-memory"
 	}
 	fn cases(&self, tier: Tier) -> u32 {
-		tier.pick(15_000, 400_000)
+		tier.pick(60_000, 1_200_000)
 	}
 	fn strategy(&self, tier: Tier) -> BoxedStrategy<C10Case> {
 		let max = tier.pick(16usize, 30);
@@ -496,7 +496,7 @@ impl SubCheck for StopTcp {
 		"stop-over-tcp"
 	}
 	fn cases(&self, tier: Tier) -> u32 {
-		tier.pick(160, 3_000)
+		tier.pick(400, 8_000)
 	}
 	fn shards(&self, _tier: Tier) -> u32 {
 		8
